@@ -216,12 +216,23 @@ fn units(_tier: Tier) -> Vec<Unit> {
 
 /// Applies a sequence of remaps (in call order) to a tree and its reference
 fn apply_seq(t: &Tree, f: &Fun, rs: &[Remap], seq: &[usize]) -> (Tree, Fun, bool, String) {
+    apply_seq_keep(t, f, rs, seq, false)
+}
+
+/// `keep`: every intermediate tree keeps a second owner while the next remap
+/// is applied (as when a caller stores the intermediate shape), so that
+/// builder-side shortcuts which depend on unique ownership are exercised too
+fn apply_seq_keep(t: &Tree, f: &Fun, rs: &[Remap], seq: &[usize], keep: bool) -> (Tree, Fun, bool, String) {
+    let mut kept: Vec<Tree> = vec![];
     let mut tree = t.clone();
     let mut fun = f.clone();
     let mut exact = true;
     let mut names = vec![];
     for i in seq {
         let r = &rs[*i];
+        if keep {
+            kept.push(tree.clone());
+        }
         tree = (r.apply)(&tree);
         let (prev, m) = (fun.clone(), r.map.clone());
         // later remaps act on the coordinates first
@@ -259,7 +270,7 @@ impl Check for C13 {
     }
     fn meta(&self, tier: Tier) -> Meta {
         Meta {
-            rule: "case = (target tree, sequence of remaps); targets {x, x+2y+4z, x*y-z, min(x,y)+v with a free variable v}; remap alphabet of 12: remap_affine with {translation, non-uniform scale incl. negative, 90-degree rotations about z and x, shear with translation, a general rotation} and remap_xyz with {a permutation, non-linear expressions (x*y, y+1, z), a constant axis, expressions using the free variable, a duplicated axis, min/max expressions}; EVERY sequence up to the length bound applied through the builder API; additionally remaps applied to a sub-tree before combination ((A.remap(r1) op B).remap(r2)) and one sub-tree shared bare and under two different frames, in both operand orders ((S.remap(r1) - 2 S.remap(r2) + S).remap(r3) and (S + (S.remap(r1) - 2 S.remap(r2))).remap(r3)); evaluated (import + ref32) at 27 dyadic points x 2 values of v and compared with f64 substitution semantics (later remaps act on coordinates first): to 1e-5 relative (dyadic data: short chains are exact, which the tolerance subsumes); consecutive remap_affine calls must collapse into one node".into(),
+            rule: "case = (target tree, sequence of remaps); targets {x, x+2y+4z, x*y-z, min(x,y)+v with a free variable v}; remap alphabet of 12: remap_affine with {translation, non-uniform scale incl. negative, 90-degree rotations about z and x, shear with translation, a general rotation} and remap_xyz with {a permutation, non-linear expressions (x*y, y+1, z), a constant axis, expressions using the free variable, a duplicated axis, min/max expressions}; EVERY sequence up to the length bound applied through the builder API, once as a plain chain and once with every intermediate tree kept alive by a second owner; additionally remaps applied to a sub-tree before combination ((A.remap(r1) op B).remap(r2)) and one sub-tree shared bare and under two different frames, in both operand orders ((S.remap(r1) - 2 S.remap(r2) + S).remap(r3) and (S + (S.remap(r1) - 2 S.remap(r2))).remap(r3)); evaluated (import + ref32) at 27 dyadic points x 2 values of v and compared with f64 substitution semantics (later remaps act on coordinates first): to 1e-5 relative (dyadic data: short chains are exact, which the tolerance subsumes); consecutive remap_affine calls must collapse into one node".into(),
             bounds: match tier {
                 Tier::Quick => "sequences of length <= 3".into(),
                 Tier::Thorough => "sequences of length <= 4".into(),
@@ -316,16 +327,19 @@ impl Check for C13 {
                         continue;
                     }
                     cx.add("cases", 1);
-                    let (tree, fun, exact, names) = apply_seq(t, f, &rs, &seq);
                     let kinds: String = seq.iter().map(|i| if rs[*i].affine { 'A' } else { 'X' }).collect();
-                    compare(
-                        cx,
-                        &format!("({tname}) remapped by {names}"),
-                        &format!("remap sequence is not substitution (kinds {kinds})"),
-                        &tree,
-                        &fun,
-                        exact,
-                    );
+                    for keep in [false, true] {
+                        let (tree, fun, exact, names) = apply_seq_keep(t, f, &rs, &seq, keep);
+                        compare(
+                            cx,
+                            &format!("({tname}) remapped by {names}{}", if keep { " (every intermediate tree kept alive by a second owner)" } else { "" }),
+                            &format!("remap sequence is not substitution (kinds {kinds})"),
+                            &tree,
+                            &fun,
+                            exact,
+                        );
+                    }
+                    let (_, _, _, names) = apply_seq(t, f, &rs, &seq);
                     if sub % 97 == 0 {
                         cx.sample(|| json!({"target": tname, "sequence": names}));
                     }
